@@ -69,7 +69,7 @@ def shard(traces, max_events=400000):
     out, cur, n = [], [], 0
     for t in traces:
         k = len(t.get("ev", ())) + 1
-        if cur and n + k > max_events:
+        if cur and n + k > max_events and not cur[-1].get("sib"):
             out.append(cur)
             cur, n = [], 0
         cur.append(t)
